@@ -703,9 +703,15 @@ class Interp(object):
         key = (m.name, name)
         if key in self._module_cache:
             return self._module_cache[key]
+        # a module-level mutable object is one object for the whole run (aliasing through it must be visible), and a fresh one per run
+        per_run = getattr(getattr(self, 'state', None), '__dict__', {}).setdefault('_module_mutables', {}) if getattr(self, 'state', None) is not None else None
+        if per_run is not None and key in per_run:
+            return per_run[key]
         v = self._module_value(m, name, _depth)
         if v is not None and not isinstance(v, Mutable):
             self._module_cache[key] = v
+        elif v is not None and per_run is not None:
+            per_run[key] = v
         return v
 
     def _module_value(self, m, name, _depth):
@@ -726,7 +732,10 @@ class Interp(object):
             if m is self._err_mod and name in self._err_names:
                 return Err(name, self._err_names[name])
             node = m.constants[name]
-            return self.const_expr(m, node)
+            v = self.const_expr(m, node)
+            if isinstance(v, (DictV, ListV)):
+                v = self._import_time_fill(m, name, v)
+            return v
         imp = m.imports.get(name)
         if imp is None:
             return None
@@ -739,6 +748,45 @@ class Interp(object):
         if target in model.modules:
             return self.module_value(model.modules[target], attr, _depth + 1)
         return self.external(target + '.' + attr)
+
+    def _import_time_fill(self, m, name, v):
+        """A module-level container that top-level statements after its definition fill or edit at import time
+        (``TABLE = {}`` followed by ``for op in ...: TABLE[op] = build(op)``): those statements are executed once, abstractly, on the
+        value.  Anything in them the interpreter cannot follow without a decision leaves the container unknown."""
+        body = m.tree.body
+        start = None
+        for i, st in enumerate(body):
+            if isinstance(st, ast.Assign) and any(isinstance(t, ast.Name) and t.id == name for t in st.targets):
+                start = i
+        if start is None:
+            return v
+
+        def edits(st):
+            for x in ast.walk(st):
+                if isinstance(x, (ast.FunctionDef, ast.AsyncFunctionDef, ast.ClassDef, ast.Lambda)):
+                    continue
+                if isinstance(x, ast.Subscript) and isinstance(x.ctx, (ast.Store, ast.Del)) and isinstance(x.value, ast.Name) and x.value.id == name:
+                    return True
+                if isinstance(x, ast.Call) and isinstance(x.func, ast.Attribute) and isinstance(x.func.value, ast.Name) and x.func.value.id == name \
+                        and x.func.attr in ('update', 'append', 'extend', 'insert', 'setdefault', 'pop', 'clear', 'remove', 'add', 'sort', 'reverse'):
+                    return True
+            return False
+        later = [st for st in body[start + 1:] if isinstance(st, (ast.For, ast.Expr, ast.Assign, ast.AugAssign, ast.Delete, ast.If, ast.While))
+                 and edits(st)]
+        if not later:
+            return v
+        saved = (getattr(self, 'state', None), getattr(self, 'depth', 0), getattr(self, '_decisions', []), getattr(self, '_dpos', 0))
+        self.state = State()
+        self.depth = 0
+        self._decisions, self._dpos = [], 0
+        try:
+            fr = Frame({name: v}, None, m)
+            self.block(later, fr)
+            return fr.vars.get(name, v)
+        except _Signal:
+            return Top('module-level container %s filled at import time in a way not followed' % name)
+        finally:
+            self.state, self.depth, self._decisions, self._dpos = saved
 
     def external(self, full):
         if full in ('datetime.datetime', 'datetime.date', 'datetime.timedelta', 'datetime.time'):
@@ -1340,6 +1388,21 @@ class Interp(object):
                     self.imprecise('while loop bound')
                     break
                 notes_before = len(self.state.notes)
+                # a loop whose complete local state recurs without any undetermined choice in between never ends
+                try:
+                    frames_, f_ = [], fr
+                    while f_ is not None:
+                        frames_.append(tuple(sorted((nm_, k(v_)) for nm_, v_ in f_.vars.items() if isinstance(v_, V))))
+                        f_ = f_.parent
+                    snap = (len(self.state.notes), len(self.state.events), tuple(frames_))
+                except Exception:
+                    snap = None
+                if n == 1:
+                    seen_states = set()         # per execution of the loop statement
+                if snap is not None and n > 1:
+                    if snap in seen_states:
+                        raise Raised(Exc('hx:NonTermination', 'the state of the loop `while %s` repeats' % src(s.test)))
+                    seen_states.add(snap)
                 tv = self.expr(s.test, fr)
                 before = len(self.state.notes) + self._dpos
                 if len(self.state.notes) > notes_before:
@@ -1758,6 +1821,13 @@ class Interp(object):
             if ca:
                 return self.const_expr(ca[0], ca[2])
         if isinstance(base, TypeV):
+            if base.name in ('datetime.datetime', 'datetime.date') and attr in ('max', 'min'):
+                # the extreme date-times the type can hold: constants (seconds since 1970-01-01)
+                import datetime as _dt
+                from fractions import Fraction
+                d = getattr(_dt.datetime, attr) if base.name == 'datetime.datetime' else _dt.datetime.combine(getattr(_dt.date, attr), _dt.time())
+                delta = d - _dt.datetime(1970, 1, 1)
+                return Aff(0, Fraction(delta.days * 86400 + delta.seconds) + Fraction(delta.microseconds, 10 ** 6), 'dt')
             return Builtin(base.name + '.' + attr)
         if isinstance(base, Builtin):
             return Builtin(base.name + '.' + attr)
